@@ -114,9 +114,13 @@ func buildBucketKind(b gofakes3.Backend, kind int, maxKeys, maxKeyLen int, delim
 	}
 	n := 1 + vsym.Choice("nkeys", maxKeys)
 	var live []liveObj
+	fixedFirst := vsym.Param("nestedfirst", 0) == 1 // the first key is the nested key a/b
 	for i := 0; i < n; i++ {
 		kl := 1 + vsym.Choice("keylen", maxKeyLen)
 		key := vsym.String("key", kl)
+		if fixedFirst && i == 0 {
+			key, kl = "a/b", 3
+		}
 		if printable { // keys that survive the XML text of a native replay
 			for j := 0; j < kl; j++ {
 				vsym.Assume(key[j] >= 0x20 && key[j] < 0x7f)
